@@ -356,6 +356,15 @@ def coupled_systems(tier):
                 for nonprop in (False, True):
                     modes = [el_mode(n1, wh, z1, 1.0), el_mode(n2, wh * 2.3, z2, 1.0)]
                     out.append(("c2", modes, ti, nonprop))
+    # very small w*h on the coupled (complex-eigenvalue) path, which has no documented lower cut-off: a 0.5 Hz mode
+    # integrated with h = 1e-5 has 5e-5 <= |lam| and |lam*h| = 3e-5; it must still be integrated as an elastic mode
+    # (frequencies are kept far above the rigid-body auto-detection threshold k/m < 0.005)
+    hs = 1e-5
+    for (n1, z1) in [("u.01", 0.01), ("u.5", 0.5)]:
+        for wh in (math.pi * hs, 1e-3):
+            modes = [dict(el_mode(n1, wh, z1, 1.0, h=hs), h=hs), dict(el_mode("u.5", wh * 2.3, 0.5, 1.0, h=hs), h=hs)]
+            out.append(("c2s", modes, 0, False))
+            out.append(("c2s", modes, 1, True))
     for (n1, z1) in zs:
         for wh in whs:
             for ti in (0, 1):
@@ -368,6 +377,9 @@ def coupled_systems(tier):
 
 def run_coupled(name, modes, ti, nonprop, order, fname, icname, tier, res):
     from pyyeti import ode
+
+    Hh = modes[0].get("h", H)  # small-step systems carry their own step
+    smallstep = Hh != H
 
     msgs = []
     n = len(modes)
@@ -388,7 +400,7 @@ def run_coupled(name, modes, ti, nonprop, order, fname, icname, tier, res):
     if static and has_rb:
         return msgs  # static ICs with a singular physical K: not defined outside modal space
     el = list(range(n))
-    ref = reference(M, B, K, H, F, d0, v0, order, [], static, el)
+    ref = reference(M, B, K, Hh, F, d0, v0, order, [], static, el)
     # conditioning of the state-space eigenvectors grades the coupled path
     A = np.zeros((2 * n, 2 * n))
     A[:n, :n] = -np.linalg.solve(M, B)
@@ -396,13 +408,18 @@ def run_coupled(name, modes, ti, nonprop, order, fname, icname, tier, res):
     A[n:, :n] = np.eye(n)
     lam, ur = np.linalg.eig(A)
     cond = np.linalg.cond(ur)
-    g = max(1.0, float(np.abs(lam).max()) * H)
+    g = max(1.0, float(np.abs(lam).max()) * Hh)
     zmax = max([md.get("zeta", 0.0) for md in modes])
     whmin = min([md["wh"] for md in modes if md["kind"] == "el"])
     te = np.full(n, 1e4 * EPS * g * max(1.0, np.linalg.cond(T) ** 2))
     lnz = np.abs(lam)[np.abs(lam) > 1e-9]
-    mu = min(1.0, float(lnz.min()) * H) if lnz.size else 1.0
+    mu = min(1.0, float(lnz.min()) * Hh) if lnz.size else 1.0
     tc = np.full(n, 1e3 * EPS * g * cond * mu ** -2)
+    illcond = mu < 5e-4
+    if illcond:
+        # |lam*h| << 1 on the complex-mode path: the closed-form coefficients cancel like eps*(lam*h)^-3 (3.5% observed
+        # at lam*h = 3e-5); only a coarse bound is demanded there - it still separates "ill-conditioned" from "wrong regime"
+        tc = np.full(n, min(0.5, 50 * EPS * cond * mu ** -3))
     wsc = np.full(n, float(np.abs(lam).max()))
     s3 = scales(ref, M, B, K, F, wsc)
     sc3 = tuple(np.full(n, x.max()) for x in s3)  # physical DOFs mix the modes: one global scale
@@ -419,22 +436,25 @@ def run_coupled(name, modes, ti, nonprop, order, fname, icname, tier, res):
         reuse_check(ts_, F, kw, sol, tag, msgs)
         if CALIB:
             res.err("rc/%s/%s/whmin%g" % (tag, "+".join(md["name"].split("@")[0] for md in modes), whmin), res.maxerr["ratio_err_over_tol/" + tag.split("/")[0]][0])
-        eom_residual(M, B, K, F, sol, list(range(n)), [], tag, msgs, 1e4 * EPS * max(1.0, zmax) * np.linalg.cond(M))
+        eom_residual(M, B, K, F, sol, list(range(n)), [], tag, msgs,
+                     float(tc[0]) if (illcond and tag.startswith("SolveUnc/coupled")) else 1e4 * EPS * max(1.0, zmax) * np.linalg.cond(M))
 
-    attempt("SolveExp2/coupled", lambda: ode.SolveExp2(M, B, K, H, order=order), te)
+    attempt("SolveExp2/coupled", lambda: ode.SolveExp2(M, B, K, Hh, order=order), te)
     defective = any(abs(md.get("rat", 1.0)) < 1e-6 for md in modes)
     if not has_rb:
         if not defective:
-            attempt("SolveUnc/coupled", lambda: ode.SolveUnc(M, B, K, H, order=order), tc)
+            attempt("SolveUnc/coupled", lambda: ode.SolveUnc(M, B, K, Hh, order=order), tc)
+    if smallstep:
+        return msgs
     if not nonprop and not (static or d0 is not None or v0 is not None):
         # pre_eig route (modal space first): rb auto-detected there.  (non-zero ICs with pre_eig: see known findings)
-        tpre = np.full(n, max(tol_unc(md, H * 5) for md in modes) * np.linalg.cond(T) ** 2 * 10)
-        attempt("SolveUnc/pre_eig", lambda: ode.SolveUnc(M, B, K, H, order=order, pre_eig=True), np.maximum(tpre, te))
-        attempt("SolveExp2/pre_eig", lambda: ode.SolveExp2(M, B, K, H, order=order, pre_eig=True), te * 10)
+        tpre = np.full(n, max(tol_unc(md, Hh * 5) for md in modes) * np.linalg.cond(T) ** 2 * 10)
+        attempt("SolveUnc/pre_eig", lambda: ode.SolveUnc(M, B, K, Hh, order=order, pre_eig=True), np.maximum(tpre, te))
+        attempt("SolveExp2/pre_eig", lambda: ode.SolveExp2(M, B, K, Hh, order=order, pre_eig=True), te * 10)
     elif not nonprop and not static:
-        tpre = np.full(n, max(tol_unc(md, H * 5) for md in modes) * np.linalg.cond(T) ** 2 * 10)
-        attempt("SolveUnc/pre_eig+ic", lambda: ode.SolveUnc(M, B, K, H, order=order, pre_eig=True), np.maximum(tpre, te))
-        attempt("SolveExp2/pre_eig+ic", lambda: ode.SolveExp2(M, B, K, H, order=order, pre_eig=True), te * 10)
+        tpre = np.full(n, max(tol_unc(md, Hh * 5) for md in modes) * np.linalg.cond(T) ** 2 * 10)
+        attempt("SolveUnc/pre_eig+ic", lambda: ode.SolveUnc(M, B, K, Hh, order=order, pre_eig=True), np.maximum(tpre, te))
+        attempt("SolveExp2/pre_eig+ic", lambda: ode.SolveExp2(M, B, K, Hh, order=order, pre_eig=True), te * 10)
     return msgs
 
 
@@ -581,8 +601,44 @@ def modal_systems(tier):
     return out
 
 
+def run_longrun(z1, ti, nonprop, order, ic, res):
+    """small step, long horizon (20000 steps of 1e-5 s on 0.5 / 1.15 Hz modes: |lam*h| = 3e-5, w*t up to 0.6 rad):
+    the complex-mode path must keep integrating these as elastic modes - SolveUnc, its pre-computed variants and
+    SolveExp2 (anchored to the exact solution on short horizons for the same matrices) must agree"""
+    from pyyeti import ode
+
+    msgs = []
+    hs = 1e-5
+    wh = math.pi * hs
+    modes = [el_mode("a", wh, z1, 1.0, h=hs), el_mode("u.5", wh * 2.3, 0.5, 1.0, h=hs)]
+    T = TRANS[2][ti]
+    md_m, md_b, md_k = (np.array([md[x] for md in modes]) for x in "mbk")
+    M, B, K = T.T @ np.diag(md_m) @ T, T.T @ np.diag(md_b) @ T, T.T @ np.diag(md_k) @ T
+    if nonprop:
+        B = B + np.array([[0.3, -0.1], [-0.1, 0.2]]) * max(1.0, abs(md_b).max()) * 0.2
+    nt = 20000
+    t = np.arange(nt) * hs
+    F = np.vstack((np.sin(2 * np.pi * 3 * t) + 1, np.cos(2 * np.pi * 7 * t)))
+    kw = dict(d0=np.array([0.1, -0.2]), v0=np.array([1.0, 2.0])) if ic else {}
+    s1 = ode.SolveExp2(M, B, K, hs, order=order).tsolve(F.copy(), **kw)
+    s2 = ode.SolveUnc(M, B, K, hs, order=order).tsolve(F.copy(), **kw)
+    res.ev("longrun/z%g/T%d/np%d/o%d/ic%d" % (z1, ti, nonprop, order, ic))
+    for nm in "dva":
+        a, b = getattr(s1, nm), getattr(s2, nm)
+        e = np.abs(a - b).max() / np.abs(a).max()
+        res.err("longrun SolveUnc vs SolveExp2", e)
+        if not e <= 1e-5:
+            msgs.append("SolveUnc/coupled: %s differs from SolveExp2 by %.3g (relative) over 20000 steps of h=1e-5 on 0.5/1.15 Hz modes (|lam*h| = 3e-5)" % (nm, e))
+    resid = np.abs(M @ s2.a + B @ s2.v + K @ s2.d - F).max() / np.abs(F).max()
+    if not resid <= 1e-5:
+        msgs.append("SolveUnc/coupled: equation of motion residual %.3g over the long run" % resid)
+    return msgs
+
+
 def shards(tier, seed):
     out = []
+    for z1, ti, nonprop in ((0.01, 0, False), (0.01, 1, True), (0.5, 0, False), (0.5, 1, True)):
+        out.append(dict(part="longrun", z1=z1, ti=ti, nonprop=nonprop, tier=tier))
     ms = modal_systems(tier)
     nchunk = 48 if tier == "quick" else 160
     for i in range(nchunk):
@@ -602,6 +658,13 @@ def shards(tier, seed):
 def run_shard(sh):
     res = Result()
     tier = sh["tier"]
+    if sh["part"] == "longrun":
+        for order, ic in itertools.product((0, 1), (0, 1)):
+            case = dict(part="longrun", z1=sh["z1"], ti=sh["ti"], nonprop=sh["nonprop"], order=order, ic=ic, tier=tier)
+            for m in run_longrun(sh["z1"], sh["ti"], sh["nonprop"], order, ic, res):
+                res.viol(case, m, kind="longrun")
+        res.sample(dict(sh))
+        return res
     if sh["part"] == "mc":
         mc = mc_systems(tier)
         for i in sh["idx"]:
@@ -651,6 +714,8 @@ def run_shard(sh):
 def replay(case):
     res = Result()
     tier = case["tier"]
+    if case["part"] == "longrun":
+        return run_longrun(case["z1"], case["ti"], case["nonprop"], case["order"], case["ic"], res)
     if case["part"] == "mc":
         return run_mc(mc_systems(tier)[case["sys"]], case["order"], case["force"], case["ic"], tier, res)
     if case["part"] == "modal":
